@@ -13,6 +13,7 @@ import json
 import os
 import random
 import re
+import subprocess
 import sys
 import time
 import traceback
@@ -154,6 +155,11 @@ def main() -> int:
         bad = 0
         for case in rp.get("cases", []):
             kind = mod.KINDS[case["kind"]]
+            for pre in case.get("preceding", []):     # the calls that were made before it in the run that found it
+                try:
+                    kind.impl(tuple(pre) if isinstance(pre, list) and not isinstance(case["args"], list) else pre)
+                except Exception:
+                    pass
             out = kind.impl(case["args"])
             print(f"replay {case['kind']} args={json.dumps(case['args'])[:300]}\n  impl: {out[:300]}")
             if kind.judge:
@@ -177,10 +183,15 @@ def main() -> int:
     try:
         run_corpus(ctx, mod, prop)
         mod.streams(ctx)
-    except Exception:
+    except (C.InfrastructureError, OSError, MemoryError, subprocess.TimeoutExpired):
         traceback.print_exc()
         print("infrastructure failure in correspondence harness")
         return 2
+    except Exception as e:
+        # the harness could not make sense of what the implementation did (an output shape it has never produced on a tree where the
+        # property holds): that is a broken correspondence, not an infrastructure problem - the failing-input search decides
+        traceback.print_exc()
+        broken.append(f"correspondence harness could not interpret the implementation's behaviour: {type(e).__name__}: {e}"[:300])
 
     # 5. known findings ----------------------------------------------------------------------
     open_k, fixed_k = load_known(prop)
